@@ -30,6 +30,7 @@ type fsCase struct {
 	Point    string `json:"point"`
 	Nth      int    `json:"nth"`
 	Steps    int    `json:"steps"`
+	Trunc    bool   `json:"trunc"`
 }
 
 type fsExpect struct {
@@ -56,7 +57,7 @@ type fsObs struct {
 // the fault hook is process-wide: C20 cases run one at a time
 var fsMu sync.Mutex
 
-func multipartBody(nfiles int) (string, string) {
+func multipartBody(nfiles int, trunc bool) (string, string) {
 	b := "verifboundary"
 	var sb strings.Builder
 	sb.WriteString("--" + b + "\r\nContent-Disposition: form-data; name=\"field1\"\r\n\r\nvalue1\r\n")
@@ -64,6 +65,12 @@ func multipartBody(nfiles int) (string, string) {
 		fmt.Fprintf(&sb, "--%s\r\nContent-Disposition: form-data; name=\"file%d\"; filename=\"f%d.txt\"\r\nContent-Type: text/plain\r\n\r\n%s\r\n", b, i, i, strings.Repeat(fmt.Sprint(i), 40))
 	}
 	sb.WriteString("--" + b + "--\r\n")
+	if trunc && nfiles > 0 {
+		// cut in the middle of the content of the last file part
+		full := sb.String()
+		cut := strings.LastIndex(full, strings.Repeat(fmt.Sprint(nfiles), 40)) + 20
+		return full[:cut], "multipart/form-data; boundary=" + b
+	}
 	return sb.String(), "multipart/form-data; boundary=" + b
 }
 
@@ -142,7 +149,7 @@ SecAction "id:20,phase:5,pass,nolog"
 		}()
 		tx := w.NewTransaction()
 		itx := tx.(*corazawaf.Transaction)
-		body, ct := multipartBody(c.NFiles)
+		body, ct := multipartBody(c.NFiles, c.Trunc)
 		tx.ProcessConnection("10.0.0.1", 1, "10.0.0.2", 80)
 		tx.ProcessURI("/u", "POST", "HTTP/1.1")
 		tx.AddRequestHeader("Host", "h")
